@@ -504,6 +504,7 @@ func laws(sel int, in, got []int64, law func(lsel int, lin []int64, sig string))
 		g := append([]int64{}, got[1:1+l1]...)
 		g = append(g, got[2+l1:]...)
 		law(107, append(append([]int64{}, in...), g...), "")
+		lawsUnchangedDRAOps(in, law)
 	case 15:
 		lawsCloneMutate(in, law)
 	case 7:
